@@ -109,6 +109,12 @@ end
 def accessedX (ps : List Name) (body : List X) : List Name :=
   (peBlockX body { assigned := ps }).nonLocals
 
+/-- `e` is a function literal, possibly in parentheses -/
+partial def directFn : X → Option (List Name × List X)
+  | .fn ps body => some (ps, body)
+  | .par e => directFn e
+  | _ => none
+
 mutual
 /-- declarative free variables: `(free names, names bound afterwards)` -/
 partial def fvX : X → List Name → List Name × List Name
@@ -123,8 +129,19 @@ partial def fvX : X → List Name → List Name × List Name
     (((fvSeq body ps).1.filter (fun y => !bd.contains y)).filter (· != x), ins x bd)
   | .asg x e, bd => let (fe, bd) := fvX e bd; (fe, ins x bd)
   | .masg ts es, bd =>
+    -- a function literal that is (up to parentheses) one of the right-hand sides refers to the
+    -- targets of the assignment itself: `f, g = (|n| … g …), (|n| … f …)` is mutual recursion
+    let tn := ts.map targetName
     let (fe, bd) := fvSeq es bd
-    (fe, ts.foldl (fun bd t => ins (targetName t) bd) bd)
+    let direct := es.foldl (fun acc e => match directFn e with
+      | some (ps, body) => union acc ((fvSeq body ps).1.filter (fun y => tn.contains y))
+      | none => acc) []
+    let others := es.foldl (fun acc e => match directFn e with
+      | some _ => acc
+      | none => union acc (fvX e bd).1) []
+    -- names of the targets are dropped only where they come from direct function literals
+    (fe.filter (fun y => !(direct.contains y) || others.contains y),
+     ts.foldl (fun bd t => ins (targetName t) bd) bd)
   | .fn ps body, bd => ((fvSeq body ps).1.filter (fun y => !bd.contains y), bd)
   | .call g args, bd =>
     let fg := if bd.contains g then [] else [g]
